@@ -951,6 +951,13 @@ func genC04(r *simrt.Rand, tier string) any {
 	}
 	// a few namespace operations so that CREATE/MKDIR/SYMLINK results and wcc data are covered
 	genNamespaceOps(r, sc, sh, 4+r.Int(6), false)
+	if r.Pct(25) {
+		// fault-injecting class (as in C01): after a request that failed half-way, what LOOKUP, GETATTR,
+		// READDIRPLUS and the wcc data of later requests report must again agree with the backend
+		keep := append([]Op(nil), sc.Ops...)
+		genIOFaults(r, sc)
+		copy(sc.Ops, keep) // keep the CREATE operations: their faulted outcome is judged loosely here
+	}
 	return sc
 }
 
@@ -979,7 +986,7 @@ func mixGen(own func(*simrt.Rand, string) any, ownPct int, kind string) func(*si
 func init() {
 	Register(&Prop{
 		ID: "C04", Level: "exploration",
-		Rule:    "one case = a sequential history over a tree with files, directories and symlinks (incl. dangling): SETATTR with arbitrary 12-bit modes and type bits in the mode word, GETATTR, LOOKUP, READDIRPLUS, ACCESS, READ, READLINK, WRITE, namespace operations, clock advances, per-run cache configuration (60%), or one of the C01/C02/C03 workloads (40%); monitor on every attribute block of every reply (fattr3, post_op_attr, wcc after, entryplus3): type and fileid constant while the path is unchanged; type, size and permission bits equal to the backend lstat at reply time; non-trivial = at least one operation executed; distinct by event digest",
+		Rule:    "one case = a sequential history over a tree with files, directories and symlinks (incl. dangling): SETATTR with arbitrary 12-bit modes and type bits in the mode word, GETATTR, LOOKUP, READDIRPLUS, ACCESS, READ, READLINK, WRITE, namespace operations, clock advances, per-run cache configuration, in a quarter of these with 1-3 injected backend errors / short transfers as in C01 (the faulted request is exempt, every later reply is judged exactly) (60%), or one of the C01/C02/C03 workloads (40%); monitor on every attribute block of every reply (fattr3, post_op_attr, wcc after, entryplus3): type and fileid constant while the path is unchanged; type, size and permission bits equal to the backend lstat at reply time; non-trivial = at least one operation executed; distinct by event digest",
 		Gen:     mixGen(genC04, 60, "C04"),
 		New:     func() any { return &SeqScn{} },
 		Run:     runSeq("C04."),
